@@ -271,6 +271,11 @@ class UndefinedName(str):
         return str(self)
 
 
+def _source_order(name):
+    # type: (t.Any) -> tuple[int, int]
+    return tuple(getattr(name, 'declared_at', None) or (0, 0))  # type: ignore[return-value]
+
+
 class MultiName(object):
     def __init__(self, names):
         # type: (list[Name | UndefinedName]) -> None
@@ -280,7 +285,10 @@ class MultiName(object):
                 allnames.extend(n.alt_names)
             else:
                 allnames.append(n)
-        self.alt_names = list(set(allnames))
+        # duplicates removed, alternatives in source order: a set of objects
+        # hashed by identity would list them in an order that changes from
+        # process to process
+        self.alt_names = sorted(dict.fromkeys(allnames), key=_source_order)
         self.name = self.alt_names[0].name
 
     def __repr__(self):  # type: () -> str
